@@ -177,6 +177,8 @@ def run(prog, rep, tier):
     check_slot_release(prog, r2)
     r3 = rep.rule("R07.3", "collision handling: at most one connection in OpenConfirm|Established")
     check_collision(prog, r3)
+    r5 = rep.rule("R07.5", "a session ended for a local reason (our NOTIFICATION, admin shutdown, hold timer) hands the NOTIFICATION to the driver to send; one ended by the peer or the socket has nothing to send")
+    check_sessiondown_message(prog, r5)
     r4 = rep.rule("R07.4", "OPEN acceptance (version, hold time, identifier) is enforced by parse_message before the FSM")
     check_open_accept(prog, r4)
 
@@ -648,3 +650,39 @@ def check_open_accept(prog, r):
         r.ok("HoldTime::new rejects 1 and 2 (%s)" % sorted(map(str, rejects)))
     else:
         r.fail(hv.name, "holdtime-1-2", "HoldTime::new does not reject hold times 1 and 2 (rejects: %s)" % sorted(map(str, rejects)), hv.loc())
+
+
+SENDS = {"LocalNotification": "Some", "AdminShutdown": "Some", "HoldTimerExpired": "Some", "IoError": "None", "RemoteNotification": "None"}
+
+
+def check_sessiondown_message(prog, r):
+    """Output::SessionDown(reason, to_send): the driver transmits only `to_send`.  Every construction in the FSM must pair the
+    reason with the right option -- a collision loser closed with (LocalNotification(cease), None) is torn down silently and the
+    peer never learns why (RFC 4271 6.8: the loser is sent Cease / Connection Collision Resolution)."""
+    n = 0
+    for k in crate_fns(prog, "rustybgpd"):
+        nm = prog.ix[k]["name"]
+        if not nm.startswith("rustybgpd::fsm::") or "::tests::" in nm:
+            continue
+        fv = view(prog, k)
+        ags = fv.aggregates(re.compile(r"rustybgpd::fsm::Output$"), "SessionDown")
+        if not ags:
+            continue
+        r.analysed(root_name(prog, k))
+        rend = Renderer(fv, depth=10, through_names=True)
+        for bi, si, st in ags:
+            f = st["rv"]["fields"]
+            e0, e1 = rend.operand(f[0], 10), rend.operand(f[1], 10)
+            reason = [x[2] for x in walk(e0) if isinstance(x, tuple) and x and x[0] == "agg" and str(x[1]).endswith("SessionDownReason")]
+            opt = [x[2] for x in walk(e1) if isinstance(x, tuple) and x and x[0] == "agg" and str(x[1]).endswith("Option")]
+            if len(reason) != 1 or not opt or reason[0] not in SENDS:
+                r.unanalysable("%s: SessionDown built from %s / %s" % (short(nm), show(e0, 40), show(e1, 40)), fv.loc(bi))
+                continue
+            n += 1
+            if opt[0] == SENDS[reason[0]]:
+                r.ok("%s: SessionDown(%s, %s)" % (short(root_name(prog, k)), reason[0], opt[0]))
+            else:
+                r.fail(root_name(prog, k), "sessiondown-message:%s:%s" % (reason[0], opt[0]), "SessionDown(%s, ..) is built with %s as the message to send (want %s): %s" %
+                       (reason[0], opt[0], SENDS[reason[0]], "the connection is closed without the NOTIFICATION the reason names ever being transmitted" if opt[0] == "None"
+                        else "a NOTIFICATION is sent on a connection the peer or the socket already ended"), fv.loc(bi))
+    r.floor("SessionDown constructions in the FSM", n, 5)
